@@ -79,7 +79,11 @@ func init() {
 		"strings.LastIndexByte": func(e *Exec, st *State, a []Val, x *ast.CallExpr) Val {
 			// r = -1 iff c not in s; else s[r] = c and c does not occur after r
 			s, c := a[0].T, App(SString, "str.from_code", a[1].T)
-			r := e.sc.Fresh("lastidx", SInt)
+			fn := e.sc.Fun("lastIndexOf", []string{SString, SString}, SInt)
+			r := App(SInt, fn, s, c)
+			if e.binders > 0 {
+				return Val{T: r, GT: intT}
+			}
 			n := App(SInt, "str.len", s)
 			e.sc.Assert(And(Ge(r, IntLit(-1)), Lt(r, n)))
 			e.sc.Assert(Eq(Eq(r, IntLit(-1)), Not(App(SBool, "str.contains", s, c))))
@@ -221,8 +225,10 @@ func (e *Exec) call(st *State, x *ast.CallExpr) Val {
 			return e.callFunc(st, obj, nil, args, x)
 		case *types.Var:
 			fv := e.objVal(st, obj, f.Pos())
-			if c, ok := e.top().closures[obj]; ok && fv.Fn == nil {
-				fv.Fn = c
+			if fv.Fn == nil {
+				if c := e.lookupClosure(obj); c != nil {
+					fv.Fn = c
+				}
 			}
 			sig := obj.Type().Underlying().(*types.Signature)
 			args := e.evArgs(st, x, sig)
@@ -856,7 +862,10 @@ func (e *Exec) callByContract(st *State, fc *FuncContract, sig *types.Signature,
 	for i := 0; i < sig.Params().Len() && i < len(args); i++ {
 		env.vals[sig.Params().At(i).Name()] = args[i]
 	}
-	// closures: parameter names come from the literal
+	// free variables of a closure's contract are the caller's variables of that name
+	if x != nil && len(e.frames) > 0 {
+		env.resolve = e.loopEnv(st, x.Pos(), nil).resolve
+	}
 	old := st.clone()
 	env.old = old
 	env.pkgPath = fc.PkgPath()
@@ -874,7 +883,7 @@ func (e *Exec) callByContract(st *State, fc *FuncContract, sig *types.Signature,
 		res = e.pureCall(st, "contract:"+name, sig, recv, args)
 	} else {
 		if !(fc.ModSet && len(fc.Modifies) == 0) {
-			e.havocHeaps(st, "call to "+name)
+			e.havocModifies(st, fc, env, name)
 		}
 		res = e.freshResults("r_"+shortName(name), sig)
 	}
